@@ -1190,3 +1190,79 @@ def false_not_a_number(ctx):
                     ctx.require(guarded, q, '`%s` computes with `%s` = %s, which is False when nothing is available, without a truth test of it on the way' % (norm(b)[:60], side.id, norm(holders[side.id].value)[:50]), b,
                                 'a cached transaction is served with a negative confirmation count once the cached block count has expired')
     ctx.floor(n, 2, 'computations with an answer that may be False')
+
+
+@PROP.obligation('C20.cache-merge-zero', canaries=[
+    mut.replace_expr(SVC, 'Cache.store_address', "balance if balance is not None else getattr(db_addr, 'balance', None)", "balance or getattr(db_addr, 'balance', None)", 'a balance of 0 does not overwrite the cached balance'),
+    mut.replace_expr(SVC, 'Cache.store_address', "n_utxos if n_utxos is not None else getattr(db_addr, 'n_utxos', None)", "n_utxos or getattr(db_addr, 'n_utxos', None)", 'a count of 0 unspent outputs does not overwrite the cached count'),
+])
+def cache_merge_zero(ctx):
+    """Cache.store_address merges what a provider just answered into the address record. 0 is an answer (an address that spent everything
+    has balance 0, 0 unspent outputs): the arguments of the DbCacheAddress(...) row are evaluated with balance = 0, n_utxos = 0,
+    n_txs = 0 against an existing record that holds other values - the row gets the zeros, not the old values ("answers served from
+    the cache equal the answers that were stored": getbalance would keep serving the former balance)."""
+    q = SVC + ':Cache.store_address'
+    fn = ctx.repo.func(q)
+    calls = [c for c in ast.walk(fn) if isinstance(c, ast.Call) and norm(c.func) == 'DbCacheAddress']
+    if len(calls) != 1:
+        ctx.undecided('store_address: %d DbCacheAddress(...) rows, expected 1' % len(calls))
+    kw = {k.arg: k.value for k in calls[0].keywords if k.arg}
+    DB = ('var', 'db_addr')
+    it = Interp(ctx.repo, SVC, self_cls=SVC + ':Cache')
+    st = State(env={'self': S(('var', 'self')), 'db_addr': S(DB), 'address': 'addr', 'last_block': 100, 'balance': 0, 'n_utxos': 0, 'n_txs': 0, 'last_txid': None, 'txs_complete': True})
+    for a, v in (('balance', 5000), ('n_utxos', 3), ('n_txs', 7), ('last_block', 90), ('last_txid', b'\x11' * 32)):
+        st.heap[('attr', DB, a)] = v
+    n = 0
+    for name in ('balance', 'n_utxos', 'n_txs'):
+        if name not in kw:
+            ctx.undecided('store_address: the row is built without %s=' % name)
+        try:
+            got = it.eval(kw[name], st)
+        except AnalysisError as e:
+            ctx.undecided('store_address: %s= not evaluable: %s' % (name, str(e)[:80]))
+        n += 1
+        gv = got if not isinstance(got, S) else show(term(got))
+        ctx.saw('new %s 0 over a stored record -> row gets %s=%s' % (name, name, gv))
+        ctx.require(got == 0 and not isinstance(got, bool), q, 'a newly determined %s of 0 is stored as `%s` = %s: the value of the old record' % (name, norm(kw[name])[:60], gv), kw[name],
+                    'an address that spent everything keeps its former balance in the cache: getbalance answers it although every provider says 0')
+    ctx.floor(n, 3, 'merged columns')
+
+
+@PROP.obligation('C20.freshness-boundary', canaries=[
+    mut.replace_expr(SVC, 'Service.gettransactions', 'db_addr.last_block >= self.blockcount()', 'db_addr.last_block >= self.blockcount() - 1', 'a history cached one block ago counts as up to date'),
+    mut.replace_expr(SVC, 'Service.getbalance', 'db_addr.last_block >= self.blockcount()', 'db_addr.last_block + 1 >= self.blockcount()', 'a balance cached one block ago counts as up to date'),
+])
+def freshness_boundary(ctx):
+    """A cached address record answers a query only while it is as recent as the chain: last_block >= block count (blockcount() IS the
+    height of the tip). The tests in Service.gettransactions and Service.getbalance that decide whether providers are asked are evaluated
+    for a record at height 100 under block counts 99, 100, 101 and 102: providers are skipped for 99 / 100 and asked for 101 / 102. One
+    block of slack serves a history without the transactions of the newest block, marked complete."""
+    n = 0
+    DB = ('var', 'db_addr')
+    for meth, pick in (('gettransactions', lambda t: 'blockcount' in norm(t) and '_provider_execute' in norm(t.body if hasattr(t, 'body') else t)),
+                       ('getbalance', None)):
+        q = '%s:Service.%s' % (SVC, meth)
+        fn = ctx.repo.func(q)
+        tests = [i_ for i_ in ast.walk(fn) if isinstance(i_, ast.If) and 'last_block' in norm(i_.test) and 'blockcount' in norm(i_.test)]
+        if len(tests) != 1:
+            ctx.undecided('%s: %d tests compare last_block with the block count, expected 1' % (meth, len(tests)))
+        test = tests[0].test
+        asks_when_true = any(isinstance(c, ast.Call) and norm(c.func) == 'self._provider_execute' for s_ in tests[0].body for c in ast.walk(s_))
+        for count, fresh in ((99, True), (100, True), (101, False), (102, False)):
+            it = Interp(ctx.repo, SVC, self_cls=SVC + ':Service', hooks={'.blockcount': lambda it_, b, a, kw, st, node, count=count: count},
+                        decide=lambda t: True if t == DB else None)
+            st = State(env={'self': S(('var', 'self')), 'db_addr': S(DB), 'caching_enabled': True})
+            st.heap[('attr', DB, 'last_block')] = 100
+            st.heap[('attr', DB, 'balance')] = 5000
+            try:
+                v = it.truth(it.eval(test, st), st)
+            except AnalysisError as e:
+                ctx.undecided('%s: freshness test not evaluable: %s' % (meth, str(e)[:80]))
+            if not isinstance(v, bool):
+                ctx.undecided('%s: freshness test `%s` not decided for block count %d' % (meth, norm(test)[:70], count))
+            served_from_cache = (not v) if asks_when_true else v
+            n += 1
+            ctx.saw('%s: record at height 100, block count %d -> %s' % (meth, count, 'answered from the cache' if served_from_cache else 'providers asked'))
+            ctx.require(served_from_cache is fresh, q, 'an address record of height 100 under block count %d is %s (`%s`)' % (count, 'answered from the cache' if served_from_cache else 'not used', norm(test)[:80]), tests[0],
+                        'after one new block the cached history is returned without that block\'s transactions and marked complete; no provider is asked until another block arrives')
+    ctx.floor(n, 8, 'freshness decisions')
